@@ -116,7 +116,18 @@ pub enum Act {
     /// state::* queries and count queries (the oracles run at every quiescent point anyway; inside callbacks this
     /// runs the local oracle)
     Query,
+    /// Top level only: acquire up to `n` more handles to the object at `src` into the program's handle pool, by `clone` or
+    /// (with `via`) by upgrading that Weak; stops at the first refusal (the documented panic at the 16382 limit).
+    Bulk { src: Src, n: u16, via: Option<WLoc> },
+    /// release `k` handles of the pool (most recently acquired first)
+    BulkDrop { k: u16 },
+    /// acquire up to `n` more Weak pointers to the object at `src` into the weak pool (downgrade, or Weak::clone of `via`)
+    BulkWeak { src: Src, n: u16, via: Option<WLoc> },
+    BulkWeakDrop { k: u16 },
 }
+
+pub const STRONG_LIMIT: u32 = 16382;
+pub const WEAK_LIMIT: u32 = 32767;
 
 impl Act {
     pub fn kind(&self) -> &'static str {
@@ -141,11 +152,15 @@ impl Act {
             Act::CDrop { .. } => "cdrop",
             Act::Config { .. } => "config",
             Act::Query => "query",
+            Act::Bulk { .. } => "bulk",
+            Act::BulkDrop { .. } => "bulk_drop",
+            Act::BulkWeak { .. } => "bulk_weak",
+            Act::BulkWeakDrop { .. } => "bulk_weak_drop",
         }
     }
 
     pub fn is_weak_op(&self) -> bool {
-        matches!(self, Act::Downgrade { .. } | Act::Upgrade { .. } | Act::WClone { .. } | Act::WDrop { .. } | Act::WNew { .. })
+        matches!(self, Act::Downgrade { .. } | Act::Upgrade { .. } | Act::WClone { .. } | Act::WDrop { .. } | Act::WNew { .. } | Act::BulkWeak { .. } | Act::BulkWeakDrop { .. })
     }
 }
 
